@@ -22,6 +22,9 @@ uint64_t lltd_monotonic_milliseconds(void) {
 
 automata *init_automata_mapping(void) {
     automata *autom = lltd_port_malloc(sizeof(automata));
+    if (!autom) {
+        return NULL;
+    }
     autom->states_no = 3;
     autom->transitions_no = 13;
     autom->last_ts = lltd_monotonic_seconds();
@@ -108,6 +111,9 @@ automata *switch_state_mapping(automata *autom, int input, char *debug) {
 
 automata *init_automata_enumeration(void) {
     automata *autom = lltd_port_malloc(sizeof(automata));
+    if (!autom) {
+        return NULL;
+    }
     autom->states_no = 3;
     autom->transitions_no = 8;
     autom->last_ts = lltd_monotonic_seconds();
@@ -123,6 +129,10 @@ automata *init_automata_enumeration(void) {
 
     autom->extra = lltd_port_malloc(sizeof(band_state));
     band_state *band = (band_state *)autom->extra;
+    if (!band) {
+        lltd_port_free(autom);
+        return NULL;
+    }
     band->begun = false;
     band->Ni = BAND_ALPHA;
     band->r = 0;
@@ -176,6 +186,9 @@ automata *switch_state_enumeration(automata *autom, int input, char *debug) {
 
 automata *init_automata_session(void) {
     automata *autom = lltd_port_malloc(sizeof(automata));
+    if (!autom) {
+        return NULL;
+    }
     autom->states_no = 4;
     autom->transitions_no = 16;
     autom->last_ts = lltd_monotonic_seconds();
